@@ -106,7 +106,7 @@ open Verif.Gen.ConcFacts
 
 /-- callees that receive a package-level slice/map and are known not to write through it -/
 def readOnlyCallees : List String :=
-  ["bytes.Equal#1", "bytes.HasPrefix#1", "bytes.Split#1", "c.w.Write#0", "m.w.Write#0", "w.Write#0", "m.write#0",
+  ["bytes.Equal#1", "isGlobalVar#1", "bytes.HasPrefix#1", "bytes.Split#1", "c.w.Write#0", "m.w.Write#0", "w.Write#0", "m.write#0",
    "m.MinifyMimetype#0", "m.MinifyMimetype#3", "parse.EqualFold#1", "parse.ReplaceEntities#1", "parse.ReplaceEntities#2",
    "parse.ReplaceMultipleWhitespaceAndEntities#1", "parse.ReplaceMultipleWhitespaceAndEntities#2"]
 
